@@ -65,13 +65,24 @@ CONFORMANCE = [
     conf("src/soplex/spxlpbase.h", r"SPxColId\s+cId\(int\s+n\)\s*const", "LP stub"),
     conf("src/soplex/spxsolver.h", r"SPxRowId\s+rowId\(int\s+i\)\s*const", "LP stub"),
     conf("src/soplex/spxsolver.h", r"SPxColId\s+colId\(int\s+i\)\s*const", "LP stub"),
+    conf("src/soplex.h", r"DataArray<\s*RangeType\s*>\s+_rowTypes;", "writeBasisFile host member"),
+    conf("src/soplex.h", r"DataArray<typename\s+SPxSolverBase<R>::VarStatus\s*>\s+_basisStatusRows;\s*DataArray<typename\s+SPxSolverBase<R>::VarStatus\s*>\s+_basisStatusCols;", "writeBasisFile host members"),
+    conf("src/soplex.h", r"bool\s+_hasBasis;", "writeBasisFile host member"),
+    conf("src/soplex.h", r"bool\s+_isRealLPLoaded;", "writeBasisFile host member"),
+    conf("src/soplex/nameset.h", r"bool\s+has\(int\s+pnum\)\s*const", "NameSet stub (positional)"),
+    conf("src/soplex/nameset.h", r"const\s+char\*\s+operator\[\]\(int\s+pnum\)\s*const", "NameSet stub (positional)"),
+    conf("src/soplex/spxsolver.h", r"virtual\s+bool\s+writeBasisFile\(const\s+char\*\s+filename,\s*const\s+NameSet\*\s+rowNames,\s*const\s+NameSet\*\s+colNames,\s*const\s+bool\s+cpxFormat\s*=\s*false\)\s*const;", "delegation stub"),
     conf("src/soplex/spxdefines.cpp", r"const Real infinity\s*=\s*SOPLEX_DEFAULT_INFINITY;", "the global `infinity`"),
     conf(MH, r"Section\s+m_section;.*?bool\s+m_has_error;.*?const char\*\s+m_f0;.*?const char\*\s+m_f1;.*?const char\*\s+m_f2;.*?const char\*\s+m_f3;", "MPSInput stub members"),
     conf(MH, r"explicit\s+MPSInput\(std::istream&\s+p_input\)\s*:\s*m_section\(NAME\)", "MPSInput starts in section NAME without error"),
     conf("src/soplex/mpsinput.cpp", r"m_f0 = m_f1 = m_f2 = m_f3 = m_f4 = m_f5 = nullptr;.*?if\(\*m_buf != BLANK\)\s*\{\s*m_f0 = strtok\(&m_buf\[0\], \" \"\);.*?m_f1 = strtok\(nullptr, \" \"\);\s*return true;\s*\}",
          "readLine: all fields reset; a section line sets field0 (+ optionally field1) only"),
 ]
+S_WRITEFILE = sl("writeBasisFile", "src/soplex.hpp", r"bool\s+SoPlexBase<R>::writeBasisFile\s*\(\s*const\s+char\*\s+filename\s*,\s*const\s+NameSet\*\s+rowNames\s*,\s*const\s+NameSet\*\s+colNames\s*,\s*const\s+bool\s+cpxFormat\s*\)\s*const",
+                 [r"_basisStatusCols\[col\] == SPxSolverBase<R>::BASIC", r"_basisStatusRows\[row\] != SPxSolverBase<R>::BASIC", r'file << " XU ";', r"std::ofstream file\(filename\);"])
 EXTRACTS = [
+    {"as": "Solver_VarStatus.inc", "file": "src/soplex/spxsolver.h", "regex": r"enum VarStatus\s*\{.*?\};"},
+    {"as": "RangeType.inc", "file": "src/soplex.h", "regex": r"typedef enum\s*\{[^{}]*?RANGETYPE_FREE = 0,[^{}]*?\}\s*RangeType;"},
     {"as": "SPxBasis_SPxStatus.inc", "file": BH, "regex": r"enum SPxStatus\s*\{.*?\};"},
     {"as": "Desc_Status.inc", "file": BH, "regex": r"enum Status\s*\{\s*P_ON_LOWER\b.*?\};"},
     {"as": "LPRow_Type.inc", "file": "src/soplex/lprowbase.h", "regex": r"enum Type\s*\{.*?\};"},
@@ -87,40 +98,78 @@ G2 = "(0 <= g_c2 && g_c2 < g_nc)"
 GR = "(0 <= g_r && g_r < g_nr)"
 def imp(a, b):
     return "(!(%s) || (%s))" % (a, b)
-def rng(r):
-    return "(!(gp_rhs[%s] >= g_inf) && !(gp_lhs[%s] <= -g_inf) && gp_lhs[%s] != gp_rhs[%s])" % (r, r, r, r)
-def wk(r):
-    return "((gp_rs[%s] == g_PU && (!g_cpx || %s)) ? 1 : 2)" % (r, rng(r))
-def coldone(c, p):
-    seen, kind, row = p + "_seen", p + "_kind", p + "_row"
-    return ("(gp_cs[%s] > 0 ? (%s == 1 && 0 <= %s && %s < row && gp_rs[%s] < 0 && %s == %s) : gp_cs[%s] == g_PU ? (%s == 1 && %s == 3 && %s == -1) : %s == 0)"
-            % (c, seen, row, row, row, kind, wk(row), c, seen, kind, row, seen))
-W_OUTER = [
-    "0 <= col && col <= g_nc && 0 <= row && row <= g_nr",
-    "gp_cb[col] == gp_nrw[row]",
-    "g_malformed == 0 && g_header == 1 && g_endata == 0 && g_cur_kind == 0 && g_cur_col == -1 && g_cur_row == -1",
-    "gp_buf == 0 || gp_buf == buf",
-    "0 <= g_nrec && g_nrec <= col && 0 <= g_c1_seen && g_c1_seen <= 1 && 0 <= g_c2_seen && g_c2_seen <= 1 && 0 <= g_r_seen && g_r_seen <= 1",
-    imp(G1, "col <= g_c1 ? g_c1_seen == 0 : " + coldone("g_c1", "g_c1")),
-    imp(G2, "col <= g_c2 ? g_c2_seen == 0 : " + coldone("g_c2", "g_c2")),
-    imp(G1 + " && " + G2 + " && g_c1 < g_c2 && col > g_c2 && gp_cs[g_c1] > 0 && gp_cs[g_c2] > 0", "g_c1_row < g_c2_row"),
-    imp(GR, "row <= g_r ? (g_r_seen == 0 && gp_nrw[row] <= gp_nrw[g_r]) : (gp_rs[g_r] < 0 ? (g_r_seen == 1 && 0 <= g_r_col && g_r_col < col && gp_cs[g_r_col] > 0 && g_r_kind == %s) : g_r_seen == 0)" % wk("g_r")),
-]
+class Enc:
+    """status encoding of the two writers: Desc::Status (SPxBasisBase::writeBasis) / VarStatus (SoPlexBase::writeBasisFile)"""
+    def __init__(self, file_variant):
+        self.f = file_variant
+    def cb(self, c):
+        return ("gp_cs[%s] == g_BASIC" if self.f else "gp_cs[%s] > 0") % c
+    def rnb(self, r):
+        return ("gp_rs[%s] != g_BASIC" if self.f else "gp_rs[%s] < 0") % r
+    def cup(self, c):
+        return ("gp_cs[%s] == g_ONUP" if self.f else "gp_cs[%s] == g_PU") % c
+    def rng(self, r):
+        if self.f:
+            return "(gp_rt[%s] == g_BOXED)" % r
+        return "(!(gp_rhs[%s] >= g_inf) && !(gp_lhs[%s] <= -g_inf) && gp_lhs[%s] != gp_rhs[%s])" % (r, r, r, r)
+    def wk(self, r):
+        return "((gp_rs[%s] == %s && (!g_cpx || %s)) ? 1 : 2)" % (r, "g_ONUP" if self.f else "g_PU", self.rng(r))
+    def coldone(self, c, p):
+        seen, kind, row = p + "_seen", p + "_kind", p + "_row"
+        return ("((%s) ? (%s == 1 && 0 <= %s && %s < row && (%s) && %s == %s) : (%s) ? (%s == 1 && %s == 3 && %s == -1) : %s == 0)"
+                % (self.cb(c), seen, row, row, self.rnb(row), kind, self.wk(row), self.cup(c), seen, kind, row, seen))
+
+def writer_invariants(e, extra_idle="", extra_outer=None):
+    outer = [
+        "0 <= col && col <= g_nc && 0 <= row && row <= g_nr",
+        "gp_cb[col] == gp_nrw[row]",
+        "g_malformed == 0 && g_header == 1 && g_endata == 0 && g_cur_kind == 0 && g_cur_col == -1 && g_cur_row == -1" + extra_idle,
+        "0 <= g_nrec && g_nrec <= col && 0 <= g_c1_seen && g_c1_seen <= 1 && 0 <= g_c2_seen && g_c2_seen <= 1 && 0 <= g_r_seen && g_r_seen <= 1",
+        imp(G1, "col <= g_c1 ? g_c1_seen == 0 : " + e.coldone("g_c1", "g_c1")),
+        imp(G2, "col <= g_c2 ? g_c2_seen == 0 : " + e.coldone("g_c2", "g_c2")),
+        imp(G1 + " && " + G2 + " && g_c1 < g_c2 && col > g_c2 && (%s) && (%s)" % (e.cb("g_c1"), e.cb("g_c2")), "g_c1_row < g_c2_row"),
+        imp(GR, "row <= g_r ? (g_r_seen == 0 && gp_nrw[row] <= gp_nrw[g_r]) : ((%s) ? (g_r_seen == 1 && 0 <= g_r_col && g_r_col < col && (%s) && g_r_kind == %s) : g_r_seen == 0)"
+            % (e.rnb("g_r"), e.cb("g_r_col"), e.wk("g_r"))),
+    ] + (extra_outer or [])
+    inner = [
+        "0 <= row && row <= g_nr && 0 <= col && col < g_nc",
+        "gp_cb[col] == gp_nrw[row]",
+        imp(G1 + " && col > g_c1 && (%s)" % e.cb("g_c1"), "g_c1_row < row"),
+        imp(G2 + " && col > g_c2 && (%s)" % e.cb("g_c2"), "g_c2_row < row"),
+        imp(GR, "row <= g_r ? (g_r_seen == 0 && gp_nrw[row] <= gp_nrw[g_r]) : ((%s) ? g_r_seen == 1 : g_r_seen == 0)" % e.rnb("g_r")),
+    ]
+    return outer, inner
+
 W_OUTER_ASSIGNS = ["col", "row", "gp_buf", "g_buf_letter", "g_buf_idx", "g_cur_kind", "g_cur_col", "g_cur_row", "g_malformed", "g_nrec",
                    "g_header", "g_endata", "g_c1_seen", "g_c1_kind", "g_c1_row", "g_c2_seen", "g_c2_kind", "g_c2_row", "g_r_seen", "g_r_kind", "g_r_col"]
-W_INNER = [
-    "0 <= row && row <= g_nr && 0 <= col && col < g_nc",
-    "gp_cb[col] == gp_nrw[row]",
-    imp(G1 + " && col > g_c1 && gp_cs[g_c1] > 0", "g_c1_row < row"),
-    imp(G2 + " && col > g_c2 && gp_cs[g_c2] > 0", "g_c2_row < row"),
-    imp(GR, "row <= g_r ? (g_r_seen == 0 && gp_nrw[row] <= gp_nrw[g_r]) : (gp_rs[g_r] < 0 ? g_r_seen == 1 : g_r_seen == 0)"),
-]
 WFN = r"H::body\(.*this\)"
 def writer_loops(outer, inner):
+    o, i = writer_invariants(Enc(False), extra_outer=["gp_buf == 0 || gp_buf == buf"])
     return [
-        {"function": WFN, "loop": outer, "locals": ["col", "row", "buf"], "invariants": W_OUTER, "assigns": W_OUTER_ASSIGNS, "decreases": "g_nc - col"},
-        {"function": WFN, "loop": inner, "locals": ["col", "row"], "invariants": W_INNER, "assigns": ["row"], "decreases": "g_nr - row"},
+        {"function": WFN, "loop": outer, "locals": ["col", "row", "buf"], "invariants": o, "assigns": W_OUTER_ASSIGNS, "decreases": "g_nc - col"},
+        {"function": WFN, "loop": inner, "locals": ["col", "row"], "invariants": i, "assigns": ["row"], "decreases": "g_nr - row"},
     ]
+def writefile_loops(outer, inner, name_fields):
+    extra = ["0 <= g_name_split && g_name_split <= 2 * col"] if not name_fields else ["g_name_split == 0"]
+    o, i = writer_invariants(Enc(True), extra_idle=" && g_pend_letter == 0 && g_width == 0", extra_outer=extra)
+    return [
+        {"function": WFN, "loop": outer, "locals": ["col", "row"], "invariants": o,
+         "assigns": [a for a in W_OUTER_ASSIGNS if not a.startswith("g_buf") and a != "gp_buf"] + ["g_width", "g_pend_letter", "g_name_split"], "decreases": "g_nc - col"},
+        {"function": WFN, "loop": inner, "locals": ["col", "row"], "invariants": i, "assigns": ["row"], "decreases": "g_nr - row"},
+    ]
+
+TRUSTED = [
+    "std::ostream (writeBasis) / std::ofstream (writeBasisFile) are ghost-recording stubs: a small state machine assembles the inserted tokens into records <indicator> <column name> [<row name>] <end of line> and publishes the record(s) naming the ghost columns / ghost row; indicator literals are classified by their characters; std::setw pads the NEXT inserted item only (standard semantics; only the ofstream stub models it, to detect blanks inside a two-token name); setf(std::ios::left) is ignored",
+    "names are abstracted to the (kind, index) of the LP row / column they denote: the name of key k in a supplied NameSet is the address pool + k (NameSet::operator[]), spxSnprintf(buf, 16, \"x%d\"|\"C%d\", idx) leaves its result in ghost state (no characters are written), NameSet::has(key) is arbitrary (any subset of rows/columns may carry a user name); DataKeys are abstracted to positions (key of row/column n = (-1/+1, n)): NameSet key<->name and LP index<->key are assumed injective",
+    "valid-descriptor precondition of the writers = as many basic columns as nonbasic rows (the number of basic variables equals the number of rows), given through ghost prefix-count arrays cb / nrw whose defining recurrence (and the consequences 0 <= cnt[n] <= n, monotonicity) is instantiated by __CPROVER_assume in the DataArray accessor at every index the code reads; for every status array the true prefix counts satisfy all instances, so no execution of the real code is excluded",
+    "readBasis: std::stringstream is a stub whose state (0 empty, 1 one literal, 2 one literal + one int, 3 longer) lives in ghost variables and is reset by the constructor (and by str(\"\")); NameSet::add(key, str) registers what str() last produced at the next position; NameSet::number(field) returns the position the MPSInput stub chose for that field (-1 = unknown name) and asserts that field2 is looked up in the column set and field3 in the row set",
+    "readBasis: MPSInput is a stub with the real data members and the real bodies of section/field0..3/hasError/setSection/syntaxError; readLine() replays an arbitrary line: a section line (field0 = any non-empty token of up to 7 characters, field1 optional, others null) or a data line (field0 null, field1 = any token of up to 3 characters, field2/field3 present up to an arbitrary point), or end of input; this over-approximates mpsinput.cpp (conformance-checked shape); strcmp is an unrolled 8-character comparison",
+    "readBasis: spx_alloc / placement new / explicit destructor / spx_free of the temporary NameSets: spx_alloc hands out one of two spare stub objects, `new(p) NameSet()` is mapped to `p` by a macro (the spare is already default-constructed; the temporary the macro creates is destroyed at once, hence 2 destructor calls per set), ~NameSet and spx_free are counted",
+    "readBasis: `Desc l_desc(thedesc)` copies into two scratch arrays with UNSPECIFIED contents (readBasis overwrites every entry); load(theLP, false), setStatus(REGULAR), loadDesc(l_desc) are recorded (loadDesc snapshots the descriptor at the ghost indices); supplied name sets have exactly one name per row / column (number() < nRows / nCols): precondition",
+    "the contracts of readBasis are relative to LPRowSetBase::type, dualRowStatus, dualColStatus as the REAL bodies compute them at the ghost indices; the same postcondition checks those values against their specification",
+    "writeBasisFile (SoPlexBase): _rowTypes is assumed to be dimensioned like _basisStatusRows (it is maintained only while a rational LP is kept, i.e. not in SYNCMODE_ONLYREAL: with cpxFormat = true and an empty _rowTypes the real code reads out of bounds; not reproduced natively); _solver.writeBasisFile is a recorded stub; std::ofstream::good() is arbitrary",
+    "sides/bounds at the ghost indices are not NaN (reader); vectors capped at CAP rows / columns (6 quick, 24 thorough): the loop proofs are inductive, the cap bounds the object size only; assert() compiled out, the #ifndef NDEBUG blocks are excluded; termination of the record loop of readBasis is not claimed (it depends on the stream)",
+]
 
 def mut(name, slice_, find, replace, regex=False):
     d = {"name": name, "slice": slice_ + ".inc", "find": find, "replace": replace}
@@ -216,6 +265,25 @@ instances += [
      ]},
 ]
 
+
+WF_MUTANTS = [
+    mut("xu_xl_swapped", "writeBasisFile", 'file << " XU ";\n            else\n               file << " XL ";', 'file << " XL ";\n            else\n               file << " XU ";'),
+    mut("row_cursor_not_advanced", "writeBasisFile", 'file << "\\n";\n            row++;', 'file << "\\n";'),
+    mut("basic_rows_paired", "writeBasisFile", "if(_basisStatusRows[row] != SPxSolverBase<R>::BASIC)\n                  break;", "if(_basisStatusRows[row] == SPxSolverBase<R>::BASIC)\n                  break;"),
+    mut("ul_for_lower", "writeBasisFile", "if(_basisStatusCols[col] == SPxSolverBase<R>::ON_UPPER)", "if(_basisStatusCols[col] == SPxSolverBase<R>::ON_LOWER)"),
+    mut("writes_although_loaded", "writeBasisFile", "if(_isRealLPLoaded)", "if(_isRealLPLoaded && _hasBasis)"),
+]
+instances += [
+    {"name": "writeBasisFile_unloaded", "function": "SoPlexBase<R>::writeBasisFile(const char* filename, const NameSet* rowNames, const NameSet* colNames, const bool cpxFormat) const",
+     "defines": {"INST_WRITEFILE": ""}, "harness": "h_writeBasisFile", "enforce": "w_writeBasisFile",
+     "slices": COMMON + [S_WRITEFILE], "loops": writefile_loops(1, 0, False), "min_obligations": 300, "tier": "quick", "expected_s": 60,
+     "mutants": WF_MUTANTS},
+    {"name": "writeBasisFile_unloaded_name_fields", "function": "SoPlexBase<R>::writeBasisFile(...) const [clause: every name is written as one blank-free field]",
+     "defines": {"INST_WRITEFILE": "", "CLAUSE_NAME_FIELDS": ""}, "harness": "h_writeBasisFile", "enforce": "w_writeBasisFile",
+     "slices": COMMON + [S_WRITEFILE], "loops": writefile_loops(1, 0, True), "min_obligations": 300, "tier": "thorough", "expected_s": 60,
+     "mutants": [mut("setw_before_row_name", "writeBasisFile", 'file << "       ";', 'file << "       " << std::setw(8);')]},
+]
+
 unit = {
     "property": ["C14"],
     "desc": "basis files: SPxBasisBase<R>::writeBasis and readBasis (spxbasis.hpp) over ghost-recording stream / name-set / MPSInput stubs",
@@ -224,7 +292,7 @@ unit = {
     "flags": ["--bounds-check", "--pointer-check", "--signed-overflow-check"],
     "timeout_s": 280,
     "extracts": EXTRACTS, "constants": CONSTANTS, "conformance": CONFORMANCE,
-    "trusted": [],
+    "trusted": TRUSTED,
     "instances": instances,
 }
 json.dump(unit, open(os.path.join(os.path.dirname(os.path.abspath(__file__)), "unit.json"), "w"), indent=1)
